@@ -154,6 +154,26 @@ class Ctx:
             raise Inconclusive("model check %s/%s did not pass (rc=%d):\n%s" % (module, cfg, rc, tail(out, 60)))
         return ok, out
 
+    def apalache(self, module, cfg, timeout=300):
+        """Discharge an inductive invariant with Apalache: base case (Init => IndInv, length 0) and step
+        (IndInit /\\ Next => IndInv', length 1). Returns True iff both report NoError. Spec-side result."""
+        results = []
+        for init, length in (("Init", 0), ("IndInit", 1)):
+            out_dir = tempfile.mkdtemp(prefix="apa_", dir=self.scratch)
+            cmd = ["timeout", str(timeout), "apalache-mc", "check", "--config=" + cfg, "--init=" + init, "--inv=IndInv",
+                   "--length=%d" % length, "--out-dir=" + out_dir, module + ".tla"]
+            t = time.time()
+            p = subprocess.run(cmd, cwd=self.specdir, capture_output=True, text=True)
+            ok = "The outcome is: NoError" in p.stdout
+            results.append(ok)
+            self.cov["tlc_runs"].append({"module": module, "cfg": cfg, "tag": "apalache:%s/len%d" % (init, length), "rc": p.returncode,
+                                         "wall_s": round(time.time() - t, 1), "generated": 0, "distinct": 0})
+            shutil.rmtree(out_dir, ignore_errors=True)
+            if p.returncode == 124:
+                raise Inconclusive("apalache %s timed out" % module)
+        self.cov.setdefault("apalache_obligations", []).append({"module": module, "cfg": cfg, "base": results[0], "step": results[1]})
+        return all(results)
+
     def validate(self, module, traces, cfg=None, timeout=900, env=None, per_proc=1, deque=False, heap="3g"):
         """Validate ndjson traces recorded from the real code with a Trace_* module.
         Returns list of (trace_path, [reject tuples], walked:boolean, raw output)."""
